@@ -514,4 +514,58 @@ example : let d := [some 0, none, some 2, some 4, none, some 6].foldl (SeqDig.st
 example : (marketFold cEngine (cEng0 2 wPlan) ((genData wP).map (·.ev))).mv.seen.foldl (SeqDig.step wP) SeqDig.init
     = ⟨10, 7, 3, 10, 0, 0, none⟩ := by decide
 
+
+/-! ## Execution links for a subset of the exchanges (`tracked t x`, `linkedExchange`)
+
+The market forwarder of the model (`stepFwdMarket`) forwards the next dataset element whatever it is and
+whatever the execution side looks like; a backtest that filtered its market stream by "exchanges with an
+execution link" would not refine it. Stated explicitly: -/
+
+/-- THE MARKET VIEW IS INDEPENDENT OF WHICH EXCHANGES HAVE AN EXECUTION LINK. Two backtests over the same
+dataset with the same engine (strategy, recorders) whose execution sides answer different subsets of the
+requests (`linked`, `linked'`: which exchanges have an `ExecutionConfig`; `fun _ => false` = empty
+`executions`), started from any execution-side state and any initial account events, under any two
+schedules that end with `Shutdown`: every view of the engine that account events do not influence (the
+recorded market stream - Items of traded and of tracked-only instruments, disconnect notices of every
+exchange -, the strategy's requests) is the same, and it is that of the plain sequential run over the
+WHOLE dataset. -/
+theorem market_view_independent_of_execution_links (E : Engine σ μ α ρ) (X : Exchange χ ρ α)
+    (linked linked' : ρ → Bool) (eng0 : σ) (exch0 exch0' : χ) (ds : List μ) (acc0 acc0' : List α)
+    (P : σ → Prop) (obs : σ → β) (hv : MarketView E P obs) (hp0 : P eng0) (acts acts' : List Act)
+    (h : (run E (linkedExchange X linked) (BT.init eng0 exch0 ds acc0) acts).stopped = some .shutdown)
+    (h' : (run E (linkedExchange X linked') (BT.init eng0 exch0' ds acc0') acts').stopped = some .shutdown) :
+    obs (run E (linkedExchange X linked) (BT.init eng0 exch0 ds acc0) acts).eng =
+      obs (run E (linkedExchange X linked') (BT.init eng0 exch0' ds acc0') acts').eng ∧
+    obs (run E (linkedExchange X linked) (BT.init eng0 exch0 ds acc0) acts).eng = obs (marketFold E eng0 ds) := by
+  have a := market_view_schedule_independent E (linkedExchange X linked) eng0 exch0 ds acc0 P obs hv hp0 acts h
+  have b := market_view_schedule_independent E (linkedExchange X linked') eng0 exch0' ds acc0' P obs hv hp0 acts' h'
+  exact ⟨a.trans b.symm, a⟩
+
+/-- … and the engine is fed every event of the dataset, in order, once, before `Shutdown`, whichever exchanges
+have an execution link (`consumes_all_before_shutdown` does not mention the execution side's behaviour). -/
+theorem consumes_all_whatever_the_links (E : Engine σ μ α ρ) (X : Exchange χ ρ α) (linked : ρ → Bool)
+    (eng0 : σ) (exch0 : χ) (ds : List μ) (acc0 : List α) (acts : List Act) :
+    let s := run E (linkedExchange X linked) (BT.init eng0 exch0 ds acc0) acts
+    s.stopped = some .shutdown →
+      ∃ pre, s.processed = pre ++ [.shutdown] ∧ Ev.shutdown ∉ pre ∧ marketOf pre = ds :=
+  consumes_all_before_shutdown E (linkedExchange X linked) eng0 exch0 ds acc0 acts
+
+/-! ### Non-vacuity: a dataset with a tracked-only instrument and a tracked-only exchange's marker -/
+
+/-- instrument 0 is traded; instrument 1 and exchange number 1 (the first marker) are tracked only -/
+def wDsT : List MktEv :=
+  [⟨0, 1, 0, true⟩, .trade 1 0 50, .trade 2 1 100, .trade 3 1 101, .reconnecting 4, .trade 5 0 51]
+/-- execution link for instrument 0's exchange only / for no exchange at all (empty `executions`) -/
+def wXT : Exchange CExch Req AccEv := linkedExchange cExchange (fun r => decide (r.item.inst < 1))
+def wXNone : Exchange CExch Req AccEv := linkedExchange cExchange (fun _ => false)
+def wTLinked : BT CEng CExch MktEv AccEv :=
+  run cEngine wXT (cInit 2 wPlan wDsT) (schedActs cEngine wXT pickEager 100 (cInit 2 wPlan wDsT))
+def wTNone : BT CEng CExch MktEv AccEv :=
+  run cEngine wXNone (cInit 2 wPlan wDsT) (schedActs cEngine wXNone pickEager 100 (cInit 2 wPlan wDsT))
+example : wTLinked.stopped = some .shutdown ∧ marketOf wTLinked.processed = wDsT ∧
+    wTLinked.eng.mv.seen = [none, some 1, some 2, some 3, none, some 5] ∧
+    wTLinked.eng.mv.instSeen = [[1, 5], [2, 3]] ∧ (cSummarise wTLinked.eng).pos = [1, 0] := by decide
+example : wTNone.stopped = some .shutdown ∧ marketOf wTNone.processed = wDsT ∧
+    wTNone.eng.mv = wTLinked.eng.mv ∧ (cSummarise wTNone.eng).pos = [0, 0] := by decide
+
 end BarterModel.Props.C20
